@@ -2,7 +2,7 @@
 
 from ..common import competitions_of, run_kinds
 from ..core import AnalysisError
-from ..ir import show
+from ..ir import facts, show
 from ..rules_ift import Rep, check_fmax_competition, check_seeding
 from ..schema import loop_signature
 
@@ -93,7 +93,7 @@ def check(chk, repo):
     def extra(e, u):
         q = u.q
         return (e.target == comp.field(q, "label") and e.value == comp.field(q, "predicted_label")
-                and e.guards == u.event.guards and e.loops == u.event.loops)
+                and facts(e.guards) == facts(u.event.guards) and e.loops == u.event.loops)
 
     check_fmax_competition(rep, "", comp, extra_store=extra)
     run_kinds(rep, w)
